@@ -8,6 +8,13 @@
 //!  (D) encode(m) is a well-formed message for the independent walker `refwire` (counts, RDLENGTH,
 //!      nothing left over, every pointer targets an earlier label start, no pointer inside RDATA of
 //!      non-well-known types, OPT before TSIG, TSIG last)
+//!  (E) a message that fits in 65 535 octets encodes: `Err` from `to_vec()` is a violation in every
+//!      clause (`A-encode-failed`, `B-reencode-failed`, `S-encode-failed`)
+//!  (S) struct-level workload (sgen.rs / sbuild.rs / sjudge.rs): messages ASSEMBLED through the
+//!      public constructors from plain field values — no decoder between the generator and the
+//!      value that is judged — with (i) must-encode, (D), (iii) must-decode + equality, (iv) RDATA
+//!      and header octets equal to what the harness' own writer produces from the same field
+//!      values, (v) the harness' own packet decodes to the same value (decoder-side oracle)
 //!
 //! The projection compares: id, QR, opcode, AA, TC, RD, RA, AD, CD, rcode (numeric, 12 bit);
 //! questions (name bytes case-sensitive, type, class); per record owner (`Name::eq_case` *and* raw
